@@ -213,6 +213,76 @@ inline Bytes genBusErrorPayload(Kind k, size_t len, Rng& r)
     return b;
 }
 
+// positions (offset, width in bytes) of the inner length / discriminating fields of a payload of kind k (only those that lie inside b)
+inline std::vector<std::pair<size_t, int>> lengthFieldsOf(Kind k, const Bytes& b)
+{
+    std::vector<std::pair<size_t, int>> f;
+    switch (k)
+    {
+        case K_CAN:
+        case K_CANFD: f.push_back({15, 1}); break;
+        case K_LIN: f.push_back({7, 1}); break;
+        case K_ETH: f.push_back({4, 2}); break;
+        case K_ANALOG: f.push_back({0, 2}); break;  // sample datatype lives in the flags word
+        case K_CM:
+        {
+            wire::CmViews v;
+            if (wire::cmConsistent(b.data(), b.size(), &v))
+                for (int i = 0; i < 5; ++i)
+                    f.push_back({v.off[i] - 2, 2});
+            break;
+        }
+        case K_IF:
+        {
+            wire::IfViews v;
+            if (wire::ifConsistent(b.data(), b.size(), &v))
+            {
+                f.push_back({wire::kIfHeader, 2});
+                f.push_back({v.vendorOff - 2, 2});
+            }
+            f.push_back({29, 1});
+            break;
+        }
+        default: break;
+    }
+    std::vector<std::pair<size_t, int>> in;
+    for (auto& x : f)
+        if (x.first + static_cast<size_t>(x.second) <= b.size())
+            in.push_back(x);
+    return in;
+}
+
+// value lattice for an inner length field that has `rem` bytes after it
+inline std::vector<uint32_t> lengthLattice(int width, size_t rem, bool exhaustive16)
+{
+    std::vector<uint32_t> v;
+    if (width == 1)
+    {
+        for (uint32_t x = 0; x < 256; ++x)
+            v.push_back(x);
+        return v;
+    }
+    if (exhaustive16)
+    {
+        for (uint32_t x = 0; x <= 0xFFFF; ++x)
+            v.push_back(x);
+        return v;
+    }
+    for (uint32_t x = 0; x <= 300; ++x)
+        v.push_back(x);
+    for (long d = -3; d <= 3; ++d)
+        if (static_cast<long>(rem) + d >= 0 && static_cast<long>(rem) + d <= 0xFFFF)
+            v.push_back(static_cast<uint32_t>(static_cast<long>(rem) + d));
+    for (int bit = 9; bit < 16; ++bit)
+        for (long d = -1; d <= 1; ++d)
+            v.push_back(static_cast<uint32_t>((1L << bit) + d));
+    for (uint32_t x = 0xFFF0; x <= 0xFFFF; ++x)
+        v.push_back(x);
+    for (uint32_t x = 301; x < 0xFFF0; x += 251)
+        v.push_back(x);
+    return v;
+}
+
 inline GMsg genMsg(Rng& r, Kind k, size_t len, uint8_t& msgTypeOut)
 {
     GMsg m;
